@@ -26,7 +26,7 @@ import (
 // shape again (to reproduce the finding / after a fix).
 const (
 	avoidCSVLineBreakUnquoted   = true // csv_linebreak_unquoted: CSV/TSV field with CR/LF and no delimiter/quote is written unquoted
-	avoidCSVSingleEmptyRecord   = true // csv_single_empty_field_record_lost: one-column CSV record with an empty unquoted field is an empty line, skipped on load
+	avoidCSVSingleEmptyRecord   = true // csv_single_empty_field_record_lost: a one-column CSV record whose field is empty (NULL, or "" quoted or not) is skipped on load like a blank line
 	avoidLTSVSingleField        = true // ltsv_single_field_record_dropped: the LTSV loader drops every line that has one field
 	avoidLTSVColonInValue       = true // ltsv_colon_in_value_dropped: the LTSV loader drops ':' inside values
 	avoidFixedLineBreak         = true // fixed_linebreak_accepted: fixed-length writer accepts CR/LF in a cell
@@ -37,6 +37,10 @@ const (
 	avoidJSONLDoubleLineBreak   = true // jsonl_double_trailing_linebreak: every JSONL write path ends with two line breaks (CLI checks)
 	avoidRawTrailingLineBreak   = true // trailing_linebreak_not_encoded: the final line break is written as raw bytes (UTF-16 output gets an odd byte) (CLI checks)
 	avoidCommitSessionLineBreak = true // commit_trailing_linebreak_from_session: COMMIT ends the file with the session's line break (CLI checks)
+	avoidCRTerminatedFile       = true // cr_terminated_file_unloadable: a CSV/TSV/LTSV/FIXED file whose last byte is a CR line break does not load ("invalid use of UnreadRune")
+	avoidJSONNameTrimmed        = true // json_column_name_trimmed: JSON output trims edge blanks of column names
+	avoidJSONTrailingBackslash  = true // json_trailing_backslash_unloadable: a JSON string ending in a backslash ("x\\") does not load
+	avoidFixedSpacesCR          = true // fixed_spaces_cr_linebreak: "SPACES" position detection does not recognise CR line breaks
 )
 
 var noAvoid = func() map[string]bool {
@@ -515,7 +519,7 @@ func (c rtCase) singleEmptyRecord() bool {
 		return false
 	}
 	for _, r := range c.allRows() {
-		if r[0].Null || (r[0].S == "" && !c.EncloseAll) {
+		if r[0].S == "" {
 			return true
 		}
 	}
@@ -542,6 +546,37 @@ func (c rtCase) breakInWritten() bool {
 	return false
 }
 
+func (c rtCase) trailingBackslash() bool {
+	if !c.isJSON() || (c.JsonEscape != "" && c.JsonEscape != "BACKSLASH") {
+		return false
+	}
+	for _, s := range c.writtenTexts() {
+		if strings.HasSuffix(s, `\`) {
+			return true
+		}
+	}
+	return false
+}
+
+func (c rtCase) crTerminated() bool {
+	if c.LB != "CR" || c.Strip || c.isJSON() || (c.Format == "FIXED" && c.Fixed == "single") {
+		return false
+	}
+	return len(c.allRows()) > 0 || c.headerWritten()
+}
+
+func (c rtCase) jsonNameWithEdgeBlank() bool {
+	if !c.isJSON() {
+		return false
+	}
+	for _, h := range c.Header {
+		if h != trimBlank(h) {
+			return true
+		}
+	}
+	return false
+}
+
 // knownShape names the known defect whose shape the case has ("" if none).
 func (c rtCase) knownShape() string {
 	switch {
@@ -549,6 +584,10 @@ func (c rtCase) knownShape() string {
 		return "csv_linebreak_unquoted"
 	case c.singleEmptyRecord():
 		return "csv_single_empty_field_record_lost"
+	case c.trailingBackslash():
+		return "json_trailing_backslash_unloadable"
+	case c.jsonNameWithEdgeBlank():
+		return "json_column_name_trimmed"
 	case c.Format == "LTSV" && c.ncols() == 1:
 		return "ltsv_single_field_record_dropped"
 	case c.Format == "LTSV" && c.colonInValue():
@@ -557,10 +596,14 @@ func (c rtCase) knownShape() string {
 		return "fixed_linebreak_accepted"
 	case c.Format == "FIXED" && isUTF16(c.Enc):
 		return "fixed_utf16_padding"
+	case c.Format == "FIXED" && c.ReadVia == "spaces" && c.LB == "CR":
+		return "fixed_spaces_cr_linebreak"
 	case c.Format == "JSONL" && c.LB == "CR" && len(c.allRows()) >= 2:
 		return "jsonl_cr_linebreak_unloadable"
 	case c.isJSON() && jsonCollision(c.Header):
 		return "json_duplicate_member"
+	case c.crTerminated():
+		return "cr_terminated_file_unloadable"
 	}
 	return ""
 }
@@ -680,6 +723,12 @@ func genHeader(t *rapid.T, c *rtCase, n int, dirty bool) []string {
 		if c.isJSON() && fw.Pct(t, "hperiod", 8) {
 			h = h + "." + fw.PickU(t, "hsub", safeNames)
 		}
+		if c.isJSON() && avoiding(avoidJSONNameTrimmed, "json_column_name_trimmed") {
+			h = trimBlank(h)
+		}
+		if c.isJSON() && c.JsonEscape == "BACKSLASH" && strings.HasSuffix(h, `\`) && avoiding(avoidJSONTrailingBackslash, "json_trailing_backslash_unloadable") {
+			h += "z"
+		}
 		if trimBlank(h) == "" {
 			h = "h" + h
 		}
@@ -737,6 +786,9 @@ func genTable(t *rapid.T, cli bool) rtCase {
 	if c.Format == "JSONL" && c.LB == "CR" && avoiding(avoidJSONLCRLineBreak, "jsonl_cr_linebreak_unloadable") {
 		c.LB = fw.PickU(t, "jsonllb", []string{"LF", "CRLF"})
 	}
+	if c.LB == "CR" && !c.isJSON() && avoiding(avoidCRTerminatedFile, "cr_terminated_file_unloadable") {
+		c.Strip = true
+	}
 	dirty := fw.Pct(t, "dirty", 15)
 	big := fw.Weighted(t, "big", []int{91, 6, 3})
 	if big > 0 && avoiding(avoidPartialOutputOnRefusal, "partial_output_on_refusal") {
@@ -755,9 +807,12 @@ func genTable(t *rapid.T, cli bool) rtCase {
 	}
 	fixCell := func(x cell) cell {
 		if c.isCSV() && ncols == 1 && avoiding(avoidCSVSingleEmptyRecord, "csv_single_empty_field_record_lost") {
-			if x.Null || (x.S == "" && !c.EncloseAll) {
+			if x.S == "" {
 				return cell{S: "e"}
 			}
+		}
+		if c.isJSON() && c.JsonEscape == "BACKSLASH" && strings.HasSuffix(x.S, `\`) && avoiding(avoidJSONTrailingBackslash, "json_trailing_backslash_unloadable") {
+			x.S += "z"
 		}
 		return x
 	}
@@ -801,7 +856,8 @@ func genTable(t *rapid.T, cli bool) rtCase {
 	}
 	if !cli {
 		c.ReadVia = fw.PickU(t, "readvia", []string{"flags", "func"})
-		if c.Format == "FIXED" && c.Fixed == "auto" && c.spacesReadable() && fw.Pct(t, "spaces", 50) {
+		if c.Format == "FIXED" && c.Fixed == "auto" && c.spacesReadable() && fw.Pct(t, "spaces", 50) &&
+			!(c.LB == "CR" && len(c.allRows())+len(c.Header) > 1 && avoiding(avoidFixedSpacesCR, "fixed_spaces_cr_linebreak")) {
 			c.ReadVia = "spaces"
 		}
 		c.WithoutNull = fw.Pct(t, "withoutnull", 20)
